@@ -38,14 +38,16 @@ def vendor_value(m, pid, ac):
     return list(outs[1])
 
 
-def check_history(ctx, rep, profile, ops):
+def check_history(ctx, rep, profile, ops, lose=()):
     m = ctx.model
-    dev = P.PropDevice(m, profile)
+    dev = P.PropDevice(m, profile, lose)
     adv = [cid for cid, _ in P.PROFILES[profile]]
     full = [CAPS] + list(ops)
     st, dmp, cnt, sent, ac = P.run_impl(full, dev)
     inp = {"profile": profile, "ops": full}
-    rep.case((profile, tuple(ops)), profile)
+    if lose:
+        inp["acknowledgement_lost_for_property_writes"] = sorted(lose)
+    rep.case((profile, tuple(ops), tuple(lose)), profile + ("-ack-lost" if lose else ""))
     if st != 0:
         rep.fail("oracle", "operation-raised", inp, {"status": st})
         return None
@@ -53,7 +55,7 @@ def check_history(ctx, rep, profile, ops):
     pending, beep = set(), 0
     log = list(dev.log)
     # re-run bookkeeping op by op using the recorded per-request log: count requests per op
-    dev2 = P.PropDevice(m, profile)
+    dev2 = P.PropDevice(m, profile, lose)
     C, AC = D.mods()
     C.Command._message_id = 0
     ac2 = AC(ip="10.0.0.1", device_id=123456, port=6444)
@@ -158,9 +160,18 @@ def run(ctx, rep):
             else:
                 seq.append(rng.choice([APPLY, APPLY, REFRESH, SELF_CLEAN]))
         hist.append((profile, seq + [APPLY, REFRESH]))
+    # the acknowledgement of a property write is lost: the write was transmitted once; the following applies carry nothing more
+    lossy = []
+    for profile in P.PROFILES:
+        for op, (name, vals) in SETTERS.items():
+            if op == 10:
+                continue
+            v = vals[-1]
+            lossy.append((profile, [(op, v), APPLY, APPLY, REFRESH, APPLY, REFRESH], (0,)))
+            lossy.append((profile, [(op, v), APPLY, (op, vals[0]), APPLY, APPLY, REFRESH], (rng.randrange(2),)))
     cases, impl = [], []
-    for profile, ops in hist:
-        r = check_history(ctx, rep, profile, ops)
+    for profile, ops, *lose in [h + ((),) for h in hist] + lossy:
+        r = check_history(ctx, rep, profile, ops, lose[0])
         if r is not None:
             cases.append((r[0], r[1], 0))
             impl.append(r)
